@@ -60,7 +60,8 @@ def _build(v, cls, ctx):
     if issubclass(cls, pendulum.Duration):
         if "ctor" in v.f:
             return cls(**{k: to_native(x) for k, x in v.f["ctor"].items()})
-        raise ValueError("Duration without constructor arguments")
+        y, mo = v.f.get("_years", 0), v.f.get("_months", 0)
+        return cls(years=y, months=mo, microseconds=v.us - (365 * y + 30 * mo) * 86400 * M)
     if issubclass(cls, _dt.timedelta):
         return cls(microseconds=v.us)
     if issubclass(cls, FixedTimezone):
@@ -92,10 +93,29 @@ def call_real(qualname, args, owner_hint=None):
         return ("raise", e)
 
 
+def _world():
+    from .world import World
+
+    if not World._instances:
+        World()
+    return World._instances[-1]
+
+
+def lift_native(v):
+    """native value -> symbolic-world value with concrete fields (so that contract clauses, written over the
+    symbolic-world representation, can be evaluated on a real run)"""
+    if isinstance(v, Obj):
+        return v
+    w = _world()
+    try:
+        return w.lift(v)
+    except Exception:  # noqa: BLE001
+        return v
+
+
 def eval_contract_natively(case, args, outcome):
     """list of (label, ok) for every clause of the contract on a concrete run"""
-    from .verify import struct_eq
-
+    args = {k: lift_native(v) for k, v in args.items()}
     out = []
     reqs = case.requires(args)
     for label, f in reqs:
@@ -108,7 +128,7 @@ def eval_contract_natively(case, args, outcome):
         match = [native_truth(c) for exc, label, c in raises if isinstance(e, exc)]
         out.append((f"raise.{type(e).__name__}", any(match)))
     else:
-        res = outcome[1]
+        res = lift_native(outcome[1])
         for exc, label, c in raises:
             out.append((f"noraise.{exc.__name__}.{label}", not native_truth(c)))
         if case.has_value():
@@ -124,8 +144,14 @@ def native_equal(a, b):
         return Fraction(a) == Fraction(b)
     if isinstance(a, (tuple, list)) and isinstance(b, (tuple, list)):
         return len(a) == len(b) and all(native_equal(x, y) for x, y in zip(a, b))
+    if isinstance(a, Obj) and isinstance(b, Obj):
+        from .verify import struct_eq
+
+        return bool(struct_eq(a, b))
     if isinstance(b, Obj):
         return obj_matches(a, b)
+    if a is NotImplemented or b is NotImplemented:
+        return a is b
     return a == b
 
 
@@ -163,7 +189,7 @@ def replay(run, o, res, P):
     args = {k: to_native(v, ctx) for k, v in conc.items()}
     qualname = case.qualname
     outcome = call_real(qualname, args)
-    clauses, pre_ok = eval_contract_natively(case, args, outcome)
+    clauses, pre_ok = eval_contract_natively(case, conc, outcome)
     shown = {k: repr(v) for k, v in args.items()}
     obs = repr(outcome[1]) if outcome[0] == "ok" else f"raised {type(outcome[1]).__name__}: {outcome[1]}"
     failed = [l for l, ok in clauses if not ok and not l.startswith("requires.")]
